@@ -77,6 +77,9 @@ type Interp struct {
 	LoopBodies bool
 	Loops      []*LoopSummary
 	rangeN     int
+	// OnInvoke may take over a call on a symbolic interface value (e.g. one
+	// with slice arguments).
+	OnInvoke func(in *Interp, kind, dev string, args []Value, guard bdd.Node, st *State, pos string) (Value, bool)
 	// Models of external functions: name -> handler.
 	Models map[string]ModelFunc
 	// NoGlobalEvents: do not record reads of package-level variables.
@@ -835,7 +838,7 @@ func (in *Interp) exec(fr *frame, instr ssa.Instruction, pred bdd.Node, st *Stat
 	case *ssa.Store:
 		addr := in.operand(fr, x.Addr)
 		val := in.operand(fr, x.Val)
-		if p, ok := addr.(*Ptr); ok && strings.HasPrefix(p.Root, "global:") {
+		if p, ok := addr.(*Ptr); ok && strings.HasPrefix(p.Root, "global:") && !in.NoGlobalEvents {
 			in.T.Emit(pred, "GlobalWrite", p.Root, nil, 0, in.P.Pos(x.Pos()))
 		}
 		in.Store(st, addr, x.Val.Type(), val, bdd.True, x.Pos())
@@ -972,6 +975,10 @@ func (in *Interp) indexAddr(fr *frame, x *ssa.IndexAddr) Value {
 	switch b := base.(type) {
 	case *Ptr: // pointer to array
 		if !isConst {
+			if at, ok := x.X.Type().Underlying().(*types.Pointer).Elem().Underlying().(*types.Array); ok && at.Len() > maxArrayLeaves {
+				// a large array cell addressed by a value: recorded as element events on the array's name
+				return &Ptr{Root: b.Root + "/" + b.Path, Nil: bdd.False, Idx: in.C.Resize(iv, in.intWidth(), false)}
+			}
 			in.undecided(x.Pos(), "array indexed by a non-constant through a pointer")
 		}
 		return &Ptr{Root: b.Root, Path: elemPath(b.Path, int(k)), Nil: bdd.False}
@@ -1383,6 +1390,11 @@ func (in *Interp) invoke(recv Value, recvType types.Type, method *types.Func, ar
 		return res
 	}
 	kind := IfaceKind(recvType, method)
+	if in.OnInvoke != nil {
+		if v, handled := in.OnInvoke(in, kind, iv.Sym, args, pred, st, in.P.Pos(pos)); handled {
+			return v
+		}
+	}
 	var bargs []dom.BV
 	for _, a := range args {
 		bv, ok := a.(dom.BV)
